@@ -102,10 +102,19 @@ impl ReadXml for PartialReply {
         tracing::debug!("expecting <{}>", Self::TAG_NAME);
         let mut message_id = None;
         loop {
-            match reader.read_resolved_event()? {
+            // Once the message-id is known the message belongs to that request: whatever is wrong
+            // with the rest of it is reported to its owner when the reply is read in full, not to
+            // the (possibly unrelated) caller that happens to be reading from the transport.
+            let event = match reader.read_resolved_event() {
+                Ok(event) => event,
+                Err(_) if message_id.is_some() => break,
+                Err(err) => return Err(err.into()),
+            };
+            match event {
                 (ResolveResult::Bound(ns), Event::Start(tag))
                     if ns == Self::TAG_NS
-                        && tag.local_name().as_ref() == Self::TAG_NAME.as_bytes() =>
+                        && tag.local_name().as_ref() == Self::TAG_NAME.as_bytes()
+                        && message_id.is_none() =>
                 {
                     let end = tag.to_end();
                     tracing::debug!("trying to parse message-id");
@@ -118,6 +127,7 @@ impl ReadXml for PartialReply {
                 (_, Event::Comment(_) | Event::Decl(_)) => continue,
                 (_, Event::Eof) => break,
                 (_, Event::Text(txt)) if &*txt == MARKER => break,
+                (_, _) if message_id.is_some() => break,
                 (ns, event) => {
                     tracing::error!(?event, ?ns, "unexpected xml event");
                     return Err(ReadError::UnexpectedXmlEvent(event.into_owned()));
